@@ -28,7 +28,7 @@ ISS = """ISS (ZARYA)
 MOLNIYA = """MOLNIYA 1-90
 1 24960U 97054A   18123.22759647  .00000163  00000-0  24467-3 0  9999
 2 24960  62.6812 182.7824 6470982 294.8616  12.8538  3.18684355160009"""
-DT = 8e-6
+DT = 4e-6
 
 
 def shifted(orb, dt):
@@ -62,9 +62,14 @@ def guard(lis, cls, orb):
     return True
 
 
-def build_listeners(names, station, mstation):
+def build_listeners(names, station, mstation, stations=None):
     out = []
+    default = station
     for n in names:
+        station = default
+        if "@" in n:
+            n, _, where = n.partition("@")
+            station = stations[where]
         if n == "node":
             out.append((L.NodeListener(), "node"))
         elif n == "apside":
@@ -119,10 +124,12 @@ def main(inp, outp):
     el = np.radians([2.0, 5.0, 1.0, 8.0, 3.0, 0.5, 2.0])
     # documented convention: azimuths counterclockwise strictly increasing, last one 2 pi
     mstation = create_station("VfMask", (43.604482, 1.443962, 172.0), mask=[list(2 * np.pi - az[::-1]), list(el[::-1])])
+    # a second site from which a Molniya orbit shows two elevation maxima with an in-view minimum between them
+    stations = {"asia": create_station("VfAsia", (35.0, 80.0, 1000.0)), "south": create_station("VfSouth", (-33.9, 18.4, 50.0))}
     traces = []
     notes = []
     for sc in job["scenarios"]:
-        lis = build_listeners(sc["listeners"], station, mstation)
+        lis = build_listeners(sc["listeners"], station, mstation, stations)
         objs = [x[0] for x in lis]
         classes = [x[1] for x in lis]
         orb = source(sc)
@@ -156,8 +163,16 @@ def main(inp, outp):
                 else:
                     idx = objs.index(ev.listener)
                     lo, c = lis[idx]
-                    before = sgn(lo(shifted(o, -DT)))
-                    after = sgn(lo(shifted(o, DT)))
+                    # sign of the listener's own function a few microseconds before / after the event date, on states given
+                    # by the SAME propagation function the bisection used (the frame chain quantises time at ~40 us
+                    # through float Julian dates, so a Taylor-shifted copy of the event state would not see the step).
+                    # The numerical propagator's propagate() re-integrates and differs by millimetres from the table the
+                    # events were bisected on: sharpness is left undecided there (0, 0).
+                    if sc["propagator"] == "keplernum":
+                        before = after = 0
+                    else:
+                        before = sgn(lo(src.propagate(o.date - timedelta(microseconds=4))))
+                        after = sgn(lo(src.propagate(o.date + timedelta(microseconds=4))))
                     lab = ev.info
                     if c == "anomaly":
                         want = np.degrees(lo.value) % 360
